@@ -354,7 +354,12 @@ class JFile:
         self.bodies, self.parse_errors = {}, {}
         for key, fn in self.methods.items():
             try:
-                self.bodies[key] = self.parse_fn_body(fn)
+                body = self.parse_fn_body(fn)
+                # `unsafe { … }` is kept by the front end as an opaque token list (one idiom of rand_isaac is mapped by
+                # rs2lean); nothing in this analysis can look inside it, so the function counts as not understood
+                if '("unsafe",' in repr(body) or "('unsafe'," in repr(body):
+                    raise Unsupported("unsafe block")
+                self.bodies[key] = body
             except Unsupported as e:
                 self.parse_errors[key] = str(e)
             except Exception as e:
@@ -1388,6 +1393,17 @@ class _BaseUnit:
             if n in tu.jf.const_ty:
                 t = tu.jf.const_ty[n]
                 self.consts[n] = (t, lit_lean(v, t))
+        # the type context of rs2lean (array lengths given by constants, type aliases) for this file
+        self.aliases = {}
+        self.const_vals = {n: v for n, v in tu.jf.consts.items() if isinstance(v, int)}
+        self.enter()
+
+    def enter(self):
+        import rs2lean as _r
+        _r.TYCTX["aliases"], _r.TYCTX["consts"] = self.aliases, self.const_vals
+
+    def struct_lean(self):
+        return self.sinfo.lean
 
 class TmFnTr(FnTr):
     def __init__(self, tu, key):
@@ -1398,6 +1414,7 @@ class TmFnTr(FnTr):
         self.fn = tu.jf.methods[key]
         self.inferred, self.changed, self.tmp = {}, False, 0
         self.scope, self.lines = Scope(), []
+        self.aliases, self.ignored_asserts = [], []        # attributes of the base class (rs2lean.FnTr.__init__ is not called)
         self.sig = tu.sigs[key]
         self.kind, self.ret = self.sig["kind"], self.sig["ret"]
         self.mon = self.kind in ("tm", "opt")
